@@ -8,6 +8,7 @@
   with `comp`.
 -/
 import Yld.Model.Api
+import Yld.Proofs.Program
 namespace Yld.C06
 
 /-- `(A;B)`: A's answers, then B's. -/
@@ -75,5 +76,13 @@ theorem ite_true (q : Q) (env : Env) (d : Nat) (t e : Body) (k : K) (w w' : Worl
 theorem ite_fail (q : Q) (env : Env) (d : Nat) (t e : Body) :
     solve q env d (.disj (.ite .fail t) e) = solve q env d e := by
   funext k w; simp [solve]
+
+/-- The generated code of every body — every nesting of `;`, `->`, `->` without else and `\\+`,
+    with any continuation — has the reference semantics (Theorem A): the distribution of the
+    continuation over `;` and the breakable-block protocol for `->` are correct for all shapes. -/
+theorem control_constructs_compiled_correctly (q : Q) (hq : Parametric q) (env : Env) (b : Body) (hb : Src b) (n : Nat)
+    (k : K) (hk : External k) (w : World) :
+    execList q env (comp b [] n).1 k w = solve q env 0 b k w :=
+  compile_body_correct q hq env b hb n k hk w
 
 end Yld.C06
